@@ -175,6 +175,9 @@ Record spec := mkSpec {
   sp_net : Q; sp_refs : list Q; sp_fresh : bool; sp_qmax : Q; sp_fin : Q; sp_reg : mreg }.
 Definition spec0 : spec := mkSpec 0 [] false 0 0 mreg0.
 
+Definition same_dir (n s : Q) : bool :=
+  (Qle_bool 0 n && Qle_bool 0 s) || (Qle_bool n 0 && Qle_bool s 0).
+
 Definition spec_fill (g : spec) (f : ofill) : spec :=
   let n := sp_net g in
   let s := osq f in
@@ -184,7 +187,7 @@ Definition spec_fill (g : spec) (f : ofill) : spec :=
   else if qcrosses_strictly n s then
     let rem := Qabs' n' in
     mkSpec n' [of_price f] true rem (Qred (of_fee f * (rem / of_qty f))) (sp_reg g)
-  else if Qle_bool 0 (n * s) then
+  else if same_dir n s then
     (* same direction: increase *)
     mkSpec n' [of_price f] false (Qmaxq (sp_qmax g) (Qabs' n')) (Qred (sp_fin g + of_fee f)) (sp_reg g)
   else
@@ -220,12 +223,15 @@ Definition oestimate (p : opos) (g : spec) (r : Q) : Q :=
   end.
 
 (** verdict for one observed instrument state: 0 fine, 1 violates inside the known class,
-    2 violates outside *)
-Definition verdict (t : tols) (g : spec) (o : oistate) : N :=
+    2 violates outside. Tolerance: t_pnl for the observed estimate itself plus
+    |open quantity| x t_price for the observed average entry price that enters the recomputation
+    (plus |open quantity| x [tr] when the reference is the observed price(), see [spec_market]) *)
+Definition verdict (t : tols) (tr : Q) (g : spec) (o : oistate) : N :=
   match oi_pos o with
   | Some p =>
-      if existsb (fun r => near (t_pnl t) (oestimate p g r) (op_pnl_u p)) (sp_refs g) then 0%N
-      else if sp_fresh g && exact (op_pnl_u p) 0 then 1%N
+      let tol := t_pnl t + Qabs' (op_qty p) * (t_price t + tr) in
+      if existsb (fun r => near tol (oestimate p g r) (op_pnl_u p)) (sp_refs g) then 0%N
+      else if sp_fresh g && near (t_pnl t) 0 (op_pnl_u p) then 1%N
       else 2%N                  (* also: an open position always has a reference price *)
   | None => 0%N
   end.
@@ -233,7 +239,7 @@ Definition verdict (t : tols) (g : spec) (o : oistate) : N :=
 Notation specs := (N -> spec).
 Definition supd (s : specs) (i : N) (v : spec) : specs := fun j => if N.eqb j i then v else s j.
 
-Fixpoint prop_run (indep : bool) (t : tols) (s : specs) (evs : list oevent)
+Fixpoint prop_run (indep : bool) (t : tols) (tr : Q) (s : specs) (evs : list oevent)
          (obs : list (oistate * option oexit)) : list N :=
   match evs, obs with
   | e :: evs', o :: obs' =>
@@ -242,7 +248,7 @@ Fixpoint prop_run (indep : bool) (t : tols) (s : specs) (evs : list oevent)
                | OMarket _ m => spec_market indep (s i) m (oi_price (fst o))
                | OFill f => spec_fill (s i) f
                end in
-      verdict t g (fst o) :: prop_run indep t (supd s i g) evs' obs'
+      verdict t tr g (fst o) :: prop_run indep t tr (supd s i g) evs' obs'
   | [], [] => []
   | _, _ => [2%N]
   end.
@@ -253,7 +259,8 @@ Definition l1_times_wf (evs : list oevent) : bool :=
 Definition verdicts (c : case) : list N :=
   match c with
   | CEngine n evs obs fin frame_ok =>
-      prop_run (l1_times_wf evs) (tols15 evs) (fun _ => spec0) evs obs
+      let indep := l1_times_wf evs in
+      prop_run indep (tols15 evs) (if indep then 0 else tol_mid evs) (fun _ => spec0) evs obs
   end.
 
 Definition prop_b (c : case) : bool := forallb (N.eqb 0) (verdicts c).
